@@ -28,6 +28,9 @@
      ReadlineEndNotEof       readline() signals the end of the part before at_eof()
      WriterAssertion         the writer dies with AssertionError on input it accepted
      NameLeadingSlash        leading path separators stripped from a field NAME
+     NameMultiSemicolon      a name / filename with two or more ';' comes back as None
+     NameQuoteBeforeSemicolon  a '"' directly (or after blanks) before ';' inside a value
+   Resource bound on arbitrary input: HeaderBlockBound (awaits / bytes of one next()).
    REFINEMENT clauses (drift): SizeNone.
    A clause violated inside a read session is recorded (viol) and ends the judgement of that
    session only; a violated writer clause ends the trace.                               *)
@@ -113,11 +116,22 @@ LeadStripped(orig, obs) ==
     /\ obs # NoName /\ orig # <<>> /\ orig[1] \in {47, 92}
     /\ \E k \in 1..Len(orig) : (\A j \in 1..k : orig[j] \in {47, 92})
                                /\ (SubSeq(orig, k + 1, Len(orig)) = obs \/ PctDecode(obs) = SubSeq(orig, k + 1, Len(orig)))
-NameClause(orig, obs, what) ==
+QuoteThenSemi(orig) ==
+    \E i \in 1..Len(orig) : orig[i] = 34 /\ \E j \in (i + 1)..Len(orig) :
+        orig[j] = 59 /\ \A k \in (i + 1)..(j - 1) : orig[k] \in {32, 9}
+NSemi(orig) == Cardinality({i \in 1..Len(orig) : orig[i] = 59})
+PartSemis(w) == Max(NSemi(Get(w, "name", NoName)), NSemi(Get(w, "filename", NoName)))
+PartQS(w) == QuoteThenSemi(Get(w, "name", NoName)) \/ QuoteThenSemi(Get(w, "filename", NoName))
+NameClause(orig, obs, what, semis, qs) ==
     IF orig = NoName THEN ""
     ELSE IF obs = orig THEN ""
     ELSE IF obs # NoName /\ PctDecode(obs) = orig THEN ""
     ELSE IF orig = <<>> /\ obs = NoName THEN ""
+    \* named deviation: a quoted value holding two or more ';' is not re-joined by
+    \* parse_content_disposition; the whole header is dropped (name and filename None)
+    ELSE IF obs = NoName /\ semis >= 2 THEN "NameMultiSemicolon"
+    \* named deviation of the same splitter: '"' (escaped as \" on the wire), optional blanks, ';'
+    ELSE IF qs THEN "NameQuoteBeforeSemicolon"
     ELSE IF LeadStripped(orig, obs) THEN (IF what = "FilenameRoundTrip" THEN "" ELSE "NameLeadingSlash")
     ELSE what
 
@@ -154,7 +168,12 @@ Apply(m_, e, B, useLen) ==
             LET lvl == e.lvl
                 T == Trust(m_) /\ (lvl = 1 \/ m_.inInner)
                 err == e.res = "err"
-            IN IF ~T THEN [m |-> [m_ EXCEPT !.dead = m_.dead \/ err], bad |-> "", drift |-> ""]
+                hbc == IF Get(e, "hb", FALSE) /\ m_.have
+                          /\ (Get(e, "nops", 0) > HeaderOpsBound(Get(m_.sess, "mh", 128))
+                              \/ Get(e, "ntaken", 0) > HeaderBytesBound(Get(m_.sess, "mh", 128), Get(m_.sess, "mfs", 8190),
+                                                                       Get(m_.sess, "linecap", 131072), Get(m_.sess, "seg", 1)))
+                       THEN "HeaderBlockBound" ELSE ""
+            IN IF ~T THEN [m |-> [m_ EXCEPT !.dead = m_.dead \/ err], bad |-> hbc, drift |-> ""]
                ELSE
                LET plist == RefList(m_, lvl)
                    cur == CurIdx(m_, lvl)
@@ -182,8 +201,8 @@ Apply(m_, e, B, useLen) ==
                         ELSE IF e.hdrs # p.hdrs THEN "ReaderHeaders"
                         ELSE IF e.err # "" THEN "ReaderError"
                         ELSE IF m_.written /\ ~p.multi
-                        THEN FirstBad(<<NameClause(Get(w, "name", NoName), e.name, "NameRoundTrip"),
-                                        NameClause(Get(w, "filename", NoName), e.filename, "FilenameRoundTrip")>>)
+                        THEN FirstBad(<<NameClause(Get(w, "name", NoName), e.name, "NameRoundTrip", PartSemis(w), PartQS(w)),
+                                        NameClause(Get(w, "filename", NoName), e.filename, "FilenameRoundTrip", PartSemis(w), PartQS(w))>>)
                         ELSE ""
                    adv == ~err /\ e.res # "none" /\ c = ""
                    m1 == [m_ EXCEPT !.nchk = @ + 1]
@@ -192,7 +211,7 @@ Apply(m_, e, B, useLen) ==
                          ELSE IF ~adv THEN m1
                          ELSE IF lvl = 1 THEN [m1 EXCEPT !.ix = cur + 1, !.jx = 0, !.inInner = p.multi]
                          ELSE [m1 EXCEPT !.jx = cur + 1],
-                   bad |-> c, drift |-> ""]
+                   bad |-> IF hbc # "" THEN hbc ELSE c, drift |-> ""]
       [] e.ev = "data" ->
             LET lvl == e.lvl
                 T == Trust(m_) /\ (lvl = 1 \/ m_.inInner) /\ CurIdx(m_, lvl) >= 1
@@ -213,7 +232,7 @@ Apply(m_, e, B, useLen) ==
                    cms == Get(m_.sess, "cms", -1)
                    cmsOn == cms >= 0 /\ Get(e, "cmsapi", FALSE)
                    L == BLen(p.content)
-                   DL == IF e.kind = "dec" /\ m_.written THEN BLen(w.content) ELSE 0
+                   DL == IF e.kind \in {"dec", "decvoid"} /\ m_.written THEN BLen(w.content) ELSE 0
                    over == cmsOn /\ (L > cms \/ DL > cms)
                    big == e.err = "toolarge"
                    c == IF p.multi THEN "HarnessProtocol"
@@ -231,7 +250,7 @@ Apply(m_, e, B, useLen) ==
                         ELSE IF e.kind = "partial" /\ BLen(e.data) > L THEN "ReaderContent"
                         ELSE IF e.kind = "dec" /\ m_.written /\ e.data # w.content
                              THEN (IF Get(e, "chunkwise", FALSE) THEN "DecodeChunkwise" \o Get(e, "codec", "") ELSE "DecodeContent")
-                        ELSE IF e.kind \in {"raw", "dec", "void"} /\ ~Get(e, "ateof", TRUE) THEN "NotAtEof"
+                        ELSE IF e.kind \in {"raw", "dec", "void", "decvoid"} /\ ~Get(e, "ateof", TRUE) THEN "NotAtEof"
                         \* readline() returned b"" (its end-of-part signal) but the part is not at_eof
                         ELSE IF e.kind = "rawline" /\ ~Get(e, "ateof", TRUE) THEN "ReadlineEndNotEof"
                         ELSE ""
@@ -252,8 +271,8 @@ Apply(m_, e, B, useLen) ==
                    FieldClause(k) ==
                        LET f == e.fields[k]
                            w == m_.parts[k]
-                       IN FirstBad(<<NameClause(Get(w, "name", NoName), f.name, "NameRoundTrip"),
-                                     NameClause(Get(w, "filename", NoName), f.filename, "FilenameRoundTrip"),
+                       IN FirstBad(<<NameClause(Get(w, "name", NoName), f.name, "NameRoundTrip", PartSemis(w), PartQS(w)),
+                                     NameClause(Get(w, "filename", NoName), f.filename, "FilenameRoundTrip", PartSemis(w), PartQS(w)),
                                      IF f.value # w.content THEN "PostContent" ELSE "">>)
                    mfs == Get(m_.sess, "mfs", 8190)
                    mh == Get(m_.sess, "mh", 128)
@@ -268,6 +287,8 @@ Apply(m_, e, B, useLen) ==
                         ELSE IF big /\ under THEN "ClientMaxSpurious"
                         ELSE IF big /\ over /\ e.fed > cms + SegSlack(m_) + 2 * Min(Get(m_.sess, "seg", 1), 262144) THEN "ClientMaxLate"
                         ELSE IF big THEN ""
+                        ELSE IF seterr /\ \E k \in 1..Len(m_.parts) : PartSemis(m_.parts[k]) >= 2 THEN "NameMultiSemicolon"
+                        ELSE IF seterr /\ \E k \in 1..Len(m_.parts) : PartQS(m_.parts[k]) THEN "NameQuoteBeforeSemicolon"
                         ELSE IF seterr THEN "ReaderError"
                         ELSE IF Len(e.fields) # Len(rp) THEN "PostFieldCount"
                         ELSE FirstBad([k \in 1..Len(rp) |-> FieldClause(k)])
